@@ -3,14 +3,20 @@ package props
 import (
 	"bufio"
 	"bytes"
+	"encoding/base64"
 	"encoding/json"
 	"fmt"
 	"io"
 	"os"
 	"os/exec"
 	"runtime"
+	"runtime/debug"
 	"sync"
+	"syscall"
 	"time"
+
+	"github.com/php-any/origami/lexer"
+	"github.com/php-any/origami/parser"
 
 	"verif/rt"
 )
@@ -20,8 +26,11 @@ import (
 
 type Job struct {
 	Src      string `json:"src"`
+	B64      string `json:"b64,omitempty"` // source as base64 (arbitrary bytes); overrides Src
 	Template bool   `json:"template,omitempty"`
 	NoRun    bool   `json:"norun,omitempty"`
+	Front    bool   `json:"front,omitempty"` // C01: also tokenize separately and record the statement-loop iterations
+	LimitMs  int    `json:"-"`               // per-job limit (0: the limit given to RunJobs)
 }
 
 type JobResult struct {
@@ -29,6 +38,12 @@ type JobResult struct {
 	Hang   bool   `json:"hang,omitempty"`   // did not finish within the per-job limit (worker killed)
 	Died   bool   `json:"died,omitempty"`   // worker process died while running the job
 	Stderr string `json:"stderr,omitempty"` // tail of the worker's stderr when it died
+	// Front mode
+	Ntok     int      `json:"ntok,omitempty"`
+	LexPanic string   `json:"lex_panic,omitempty"`
+	LexStack string   `json:"lex_stack,omitempty"`
+	Iters    [][4]int `json:"iters,omitempty"` // before, after, ntok, nil-statement
+	Stage    string   `json:"stage,omitempty"` // last stage entered: lex | parse | run (read from the progress line when the worker dies)
 }
 
 func init() { Workers["script"] = scriptWorker }
@@ -42,9 +57,19 @@ func scriptWorker() {
 		if len(line) > 0 {
 			var j Job
 			if json.Unmarshal(line, &j) == nil {
+				if j.B64 != "" {
+					raw, _ := base64.StdEncoding.DecodeString(j.B64)
+					j.Src = string(raw)
+				}
+				var jr JobResult
+				if j.Front {
+					frontLex(&j, &jr, out)
+				}
 				r := rt.Run(j.Src, rt.Opts{Template: j.Template, NoRun: j.NoRun})
+				parser.VerifParseIter = nil
 				r.PanicStack = tailStr(r.PanicStack, 1500)
-				b, _ := json.Marshal(r)
+				jr.Result = r
+				b, _ := json.Marshal(jr)
 				out.WriteString(resMarker)
 				out.Write(b)
 				out.WriteByte('\n')
@@ -56,6 +81,37 @@ func scriptWorker() {
 		}
 	}
 }
+
+// frontLex tokenizes the source on its own (recovering a lexer panic) and installs the statement-loop hook.
+func frontLex(j *Job, jr *JobResult, out *bufio.Writer) {
+	func() {
+		defer func() {
+			if r := recover(); r != nil {
+				jr.LexPanic = fmt.Sprint(r)
+				jr.LexStack = tailStr(string(debug.Stack()), 2500)
+			}
+		}()
+		if j.Template {
+			jr.Ntok = len(lexer.NewLexer().TokenizeTemplate(j.Src))
+		} else {
+			jr.Ntok = len(lexer.NewLexer().Tokenize(j.Src))
+		}
+	}()
+	// progress line: if the worker dies or hangs later, the parent knows the lexer had returned
+	fmt.Fprintf(out, "%slexed %d\n", progMarker, jr.Ntok)
+	out.Flush()
+	parser.VerifParseIter = func(before, after, ntok int, nilStmt bool) {
+		n := 0
+		if nilStmt {
+			n = 1
+		}
+		if len(jr.Iters) < 64 {
+			jr.Iters = append(jr.Iters, [4]int{before, after, ntok, n})
+		}
+	}
+}
+
+const progMarker = "\x01VERIF-PROGRESS "
 
 // resMarker prefixes protocol lines: the interpreter under test may print to stdout on its own.
 const resMarker = "\x01VERIF-RESULT "
@@ -75,19 +131,28 @@ type poolWorker struct {
 }
 
 type tailBuf struct {
-	mu  sync.Mutex
-	buf []byte
+	mu   sync.Mutex
+	buf  []byte
+	head bool // keep the first bytes instead of the last (goroutine dump after SIGQUIT: the running goroutine comes first)
 }
 
 func (t *tailBuf) Write(p []byte) (int, error) {
 	t.mu.Lock()
 	defer t.mu.Unlock()
+	if t.head {
+		if len(t.buf) < 12000 {
+			t.buf = append(t.buf, p...)
+		}
+		return len(p), nil
+	}
 	t.buf = append(t.buf, p...)
 	if len(t.buf) > 8000 {
 		t.buf = t.buf[len(t.buf)-4000:]
 	}
 	return len(p), nil
 }
+
+func (t *tailBuf) headMode() { t.mu.Lock(); t.buf, t.head = nil, true; t.mu.Unlock() }
 func (t *tailBuf) String() string { t.mu.Lock(); defer t.mu.Unlock(); return string(t.buf) }
 
 func startWorker(self string) (*poolWorker, error) {
@@ -113,6 +178,13 @@ func (w *poolWorker) kill() {
 		w.cmd.Process.Kill()
 		w.cmd.Wait()
 	}
+}
+
+func jobLimit(j Job, def time.Duration) time.Duration {
+	if j.LimitMs > 0 {
+		return time.Duration(j.LimitMs) * time.Millisecond
+	}
+	return def
 }
 
 // RunJobs runs all jobs on n workers (0 = number of CPUs) with a per-job limit.
@@ -158,9 +230,18 @@ func RunJobs(self string, jobs []Job, n int, limit time.Duration) ([]JobResult, 
 					err  error
 				}
 				ch := make(chan rd, 1)
+				var pmu sync.Mutex
+				lexed, lexedN := false, 0
 				go func(r *bufio.Reader) {
 					for {
 						l, e := r.ReadBytes('\n')
+						if e == nil && bytes.Contains(l, []byte(progMarker)) {
+							pmu.Lock()
+							lexed = true
+							fmt.Sscanf(string(l[bytes.Index(l, []byte(progMarker))+len(progMarker):]), "lexed %d", &lexedN)
+							pmu.Unlock()
+							continue
+						}
 						if e == nil && !bytes.Contains(l, []byte(resMarker)) {
 							continue // stray output of the interpreter
 						}
@@ -173,16 +254,37 @@ func RunJobs(self string, jobs []Job, n int, limit time.Duration) ([]JobResult, 
 				}(w.stdout)
 				select {
 				case r := <-ch:
-					if r.err != nil || json.Unmarshal(r.line, &res[i].Result) != nil {
+					if r.err != nil || json.Unmarshal(r.line, &res[i]) != nil {
 						w.kill()
 						res[i].Died = true
 						res[i].Stderr = tailStr(w.stderr.String(), 3000)
 						w = nil
 					}
-				case <-time.After(limit):
+				case <-time.After(jobLimit(jobs[i], limit)):
 					res[i].Hang = true
+					if jobs[i].Front {
+						// ask the Go runtime for a goroutine dump: where is the front end looping?
+						w.stderr.headMode()
+						w.cmd.Process.Signal(syscall.SIGQUIT)
+						exited := make(chan struct{})
+						go func(c *exec.Cmd) { c.Wait(); close(exited) }(w.cmd)
+						select {
+						case <-exited:
+						case <-time.After(3 * time.Second):
+						}
+						res[i].Stderr = w.stderr.String()
+					}
 					w.kill()
 					w = nil
+				}
+				if res[i].Hang || res[i].Died {
+					pmu.Lock()
+					if lexed {
+						res[i].Stage, res[i].Ntok = "parse", lexedN
+					} else if jobs[i].Front {
+						res[i].Stage = "lex"
+					}
+					pmu.Unlock()
 				}
 			}
 		}()
